@@ -25,10 +25,10 @@ class ThemeError(Exception):
 class Theme:
     name = "plain"
     # rank -> value tables (index = rank)
-    times = [datetime(2021, 3, 1, 0, 0, 0, tzinfo=timezone.utc) + timedelta(hours=h) for h in range(96)]
-    meas = ["0m", "a", "ab", "b", "ba", "c"] + ["d%02d" % i for i in range(90)]
-    strs = ["0", "a", "ab", "b", "ba", "c"] + ["d%02d" % i for i in range(90)]
-    nums = [-1.5, 0, 1, 2, 2.5, 10] + [11.25 + 3 * i for i in range(90)]
+    times = [datetime(2021, 3, 1, 0, 0, 0, tzinfo=timezone.utc) + timedelta(hours=h) for h in range(400)]
+    meas = ["0m", "a", "ab", "b", "ba", "c"] + ["d%03d" % i for i in range(300)]
+    strs = ["0", "a", "ab", "b", "ba", "c"] + ["d%03d" % i for i in range(300)]
+    nums = [-1.5, 0, 1, 2, 2.5, 10] + [11.25 + 3 * i for i in range(300)]
     tagkeys = ["k1", "k2", "k3"]          # spec key i  -> tagkeys[i-1]
     fieldkeys = ["f1", "f2", "f3"]
     regex = True                            # theme realises the regex tables
